@@ -317,3 +317,25 @@ func (r *Run) witnessBytes(ss symstr) string {
 	}
 	return string(out)
 }
+
+// mapOrderOpen: is the iteration order of a range statement in this frame a choice?
+// Only in code of the module under test (harness and foreign helpers iterate in sorted
+// order), and - when the harness named functions - only in those.
+func (r *Run) mapOrderOpen(fr *frame) bool {
+	if !r.MapOrderSymbolic || !fr.mod {
+		return false
+	}
+	name := fr.fn.String()
+	if strings.Contains(fr.fn.Name(), "verif") || strings.Contains(fr.fn.Name(), "Verif") {
+		return false
+	}
+	if len(r.MapOrderFuncs) == 0 {
+		return true
+	}
+	for _, f := range r.MapOrderFuncs {
+		if strings.Contains(name, f) {
+			return true
+		}
+	}
+	return false
+}
